@@ -12,6 +12,15 @@ Ltac split_andb :=
          | H : _ && _ = true |- _ => apply andb_true_iff in H; destruct H
          end.
 
+(* check_C19 = tables_complete && check_C19_core *)
+Lemma check_core c : check_C19 c = true -> check_C19_core c = true.
+Proof. unfold check_C19. intro H. apply andb_true_iff in H. exact (proj2 H). Qed.
+
+Lemma check_tables c : check_C19 c = true -> tables_complete c = true.
+Proof. unfold check_C19. intro H. apply andb_true_iff in H. exact (proj1 H). Qed.
+
+Ltac to_core := let H := fresh in intro H; apply check_core in H; revert H; cbn [check_C19_core].
+
 Definition within (e a b : Q) : Prop := Qabs (a - b) <= e.
 
 (* the arrays the checker builds from the recorded lists *)
@@ -42,7 +51,7 @@ Lemma check_tcd_cont_sound sh h1 h2 per1 per2 c4 o valid obs :
            (this (tcd_cont QcOps (qc c4) sh (qc h1) (qc h2) per1 per2 (varr sh o) (marr sh valid) i))
            (this (nth (ravel sh i) (qcl obs) 0%Qc)).
 Proof.
-  cbn [check_C19]. cbv zeta. intro H. split_andb.
+  to_core. cbv zeta. intro H. split_andb.
   match goal with Hc : close_list _ _ _ _ = true |- _ => apply close_list_array_sound in Hc; destruct Hc as [Hl Hn] end.
   repeat split; try (apply Nat.eqb_eq; assumption); [exact Hl | exact Hn].
 Qed.
@@ -57,7 +66,7 @@ Lemma check_tcd_bl_sound sh h1 h2 o valid table obs :
            (this (tcd_bl QcOps (lookup4 table) sh (qc h1) (qc h2) (varr sh o) (marr sh valid) i))
            (this (nth (ravel sh i) (qcl obs) 0%Qc)).
 Proof.
-  cbn [check_C19]. cbv zeta. intro H. split_andb.
+  to_core. cbv zeta. intro H. split_andb.
   match goal with Hc : close_list _ _ _ _ = true |- _ => apply close_list_array_sound in Hc; destruct Hc as [Hl Hn] end.
   repeat split; try (apply Nat.eqb_eq; assumption); [exact Hl | exact Hn].
 Qed.
@@ -71,7 +80,7 @@ Lemma check_charge_sound absolute sh dV q obs :
   within (tol9 * charge_scale dV q)
          (this (charge QcOps qc_abs absolute sh (qc dV) (sarr sh q))) (this (qc obs)).
 Proof.
-  cbn [check_C19]. cbv zeta. intro H. split_andb. split.
+  to_core. cbv zeta. intro H. split_andb. split.
   - apply Nat.eqb_eq. assumption.
   - unfold within, charge_scale. apply qc_close_sound. assumption.
 Qed.
@@ -87,7 +96,7 @@ Lemma check_angle_sound sh ax deg deg_factor o acos_table obs_shape obs :
                             (varr sh o) i))
            (this (nth (ravel (angle_shape sh ax) i) (qcl obs) 0%Qc)).
 Proof.
-  cbn [check_C19]. cbv zeta. intro H. split_andb.
+  to_core. cbv zeta. intro H. split_andb.
   match goal with Hc : close_list _ _ _ _ = true |- _ => apply close_list_array_sound in Hc; destruct Hc as [Hl Hn] end.
   repeat split.
   - apply Nat.eqb_eq. assumption.
@@ -105,7 +114,7 @@ Lemma check_angle_mesh_sound p1 p2 n_ ax lo hi k :
   exists m a, src_mesh p1 p2 n_ = OK m /\ angle_mesh m ax = OK a /\
               Forall2 Qeq (pmin (reg a)) lo /\ Forall2 Qeq (pmax (reg a)) hi /\ n a = k.
 Proof.
-  cbn [check_C19]. fold (src_mesh p1 p2 n_).
+  to_core. fold (src_mesh p1 p2 n_).
   destruct (src_mesh p1 p2 n_) as [m|e]; [|discriminate].
   destruct (angle_mesh m ax) as [a|e] eqn:Ea; [|discriminate].
   intro H. split_andb. exists m, a. split; [reflexivity|]. split; [exact Ea|]. repeat split.
@@ -118,7 +127,7 @@ Lemma check_angle_mesh_reject_sound p1 p2 n_ ax :
   check_C19 (CAngleMesh p1 p2 n_ ax None) = true ->
   exists m e, src_mesh p1 p2 n_ = OK m /\ angle_mesh m ax = Err e.
 Proof.
-  cbn [check_C19]. fold (src_mesh p1 p2 n_).
+  to_core. fold (src_mesh p1 p2 n_).
   destruct (src_mesh p1 p2 n_) as [m|e]; [|discriminate].
   destruct (angle_mesh m ax) as [a|e] eqn:Ea; [discriminate|].
   intros _. exists m, e. split; [reflexivity | exact Ea].
@@ -137,7 +146,7 @@ Lemma check_emergent_sound sh h per m valid obs :
            (this (emergent QcOps sh (qcl h) per (varr sh m) (marr sh valid) i))
            (this (nth (ravel (sh ++ [3%nat]) i) (qcl obs) 0%Qc)).
 Proof.
-  cbn [check_C19]. cbv zeta. intro H. split_andb.
+  to_core. cbv zeta. intro H. split_andb.
   match goal with Hc : close_list _ _ _ _ = true |- _ => apply close_list_array_sound in Hc; destruct Hc as [Hl Hn] end.
   repeat split; try (apply Nat.eqb_eq; assumption); [exact Hl | exact Hn].
 Qed.
@@ -161,7 +170,7 @@ Lemma check_bps_sound sh h per dir c4 o valid obs_numbers :
                   (bp_profile QcOps sh (qcl h) per dir (varr sh o) (marr sh valid)))
           obs_numbers.
 Proof.
-  cbn [check_C19]. cbv zeta. intro H. split_andb.
+  to_core. cbv zeta. intro H. split_andb.
   repeat split; try (apply Nat.eqb_eq; assumption).
   match goal with Hc : forallb2 _ _ _ = true |- _ => revert Hc end.
   apply forallb2_Forall2_gen. exact round_admissible_sound.
@@ -182,7 +191,7 @@ Lemma check_demag_sound pi4 cell_ pts ftab gtab obs :
   length cell_ = 3%nat /\
   Forall2 (fun p ob => six_close (N6_at pi4 cell_ ftab gtab p) ob) pts obs.
 Proof.
-  cbn [check_C19]. cbv zeta. intro H. split_andb. split; [apply Nat.eqb_eq; assumption|].
+  to_core. cbv zeta. intro H. split_andb. split; [apply Nat.eqb_eq; assumption|].
   match goal with Hc : forallb2 _ _ _ = true |- _ => revert Hc end.
   apply forallb2_Forall2_gen. intros p ob Hc. unfold close_list in Hc.
   apply qc_close_list_sound in Hc. destruct Hc as [Hl Hn]. fold (N6_at pi4 cell_ ftab gtab p) in Hl, Hn.
@@ -349,7 +358,7 @@ Qed.
    recorded solid angles of the two octant triangles; every hypothesis of accepted_lattice_rotation holds *)
 Definition ex_o1 : list Q := [1;0;0; 0;1;0; 0;0;1; 1;0;0].
 Definition ex_o2 : list Q := [0;1;0; -1;0;0; 0;0;1; 0;1;0].
-Definition ex_tb : list q4 := [(0,0,0,-1,-(1#8)); (0,0,0,1,1#8)].
+Definition ex_tb : list q4 := [(0,0,0,-1,-(1#8)); (0,0,0,1,1#8); (0,1,0,0,0)].
 Definition ex_M : mat3 QcOps := ((qc 0, qc (-1), qc 0), (qc 1, qc 0, qc 0), (qc 0, qc 0, qc 1)).
 
 Example accepted_lattice_rotation_instance :
@@ -367,10 +376,14 @@ Proof.
     unfold vec_at, mv, dot3; repeat f_equal; apply Qc_is_canon; vm_compute; reflexivity.
 Qed.
 
-Example accepted_demag_instance :
-  check_C19 (CDemagN (88#7) [1; 2; 3] [[1; 2; 3]] [] [] [[0;0;0;0;0;0]]) = true /\
-  check_C19 (CDemagN (88#7) [2; 3; 1] [[2; 3; 1]] [] [] [[0;0;0;0;0;0]]) = true.
-Proof. vm_compute. split; reflexivity. Qed.
+(* with empty Newell tables the demag case is now REJECTED (before the completeness conjunct it was
+   accepted with an all-zero observation) *)
+Example empty_tables_rejected :
+  check_C19 (CDemagN (88#7) [1; 2; 3] [[1; 2; 3]] [] [] [[0;0;0;0;0;0]]) = false /\
+  check_C19_core (CDemagN (88#7) [1; 2; 3] [[1; 2; 3]] [] [] [[0;0;0;0;0;0]]) = true /\
+  check_C19 (CTcdBL [2;2]%nat 1 1 ex_o1 [true;true;true;true] [] [0; 0; 0; 0]) = false /\
+  check_C19 (CAngle [2]%nat 0 false 1 [1; 0; 0; 0; 1; 0] [] [1]%nat [0]) = false.
+Proof. vm_compute. repeat split; reflexivity. Qed.
 
 (* uniform in-range orientation: the OBSERVED Berg-Luescher density is zero within the tolerance
    (the recorded solid angles vanish on degenerate triangles) *)
@@ -392,4 +405,141 @@ Proof.
       change (this (f0 QcOps)) with 0 in H. destruct H. split; lra.
     + intro k. apply vec_at_amap.
   - intros a b Ha Hb. rewrite vec_at_amap. apply HU; assumption.
+Qed.
+
+(* ================= completeness of the recorded tables ================= *)
+Lemma In_indices sh i : inb sh i = true -> In i (indices sh).
+Proof.
+  intro H. rewrite <- (nth_ravel_indices sh i [] H). apply nth_In.
+  rewrite indices_length. apply ravel_lt. exact H.
+Qed.
+
+(* what the completeness conjunct certifies, per kind of case *)
+Definition tables_ok (c : c19_case) : Prop :=
+  match c with
+  | CTcdBL sh h1 h2 o valid table obs =>
+      forall ij, inb sh ij = true ->
+      forall a b c d, In (a, b, c, d) (bl_keys sh (varr sh o) (marr sh valid) ij) -> has4 table a b c d = true
+  | CAngle sh ax deg deg_factor o acos_table obs_shape obs =>
+      forall i, inb (angle_shape sh ax) i = true -> has1 acos_table (angle_key ax (varr sh o) i) = true
+  | CDemagN pi4 cell_ pts ftab gtab obs =>
+      forall p, In p pts ->
+        (forall a b c, In (a, b, c) (demag_fkeys (qc (nth 0 cell_ 0)) (qc (nth 1 cell_ 0)) (qc (nth 2 cell_ 0))
+                                        (qc (nth 0 p 0)) (qc (nth 1 p 0)) (qc (nth 2 p 0))) ->
+                       has3 ftab a b c = true) /\
+        (forall a b c, In (a, b, c) (demag_gkeys (qc (nth 0 cell_ 0)) (qc (nth 1 cell_ 0)) (qc (nth 2 cell_ 0))
+                                        (qc (nth 0 p 0)) (qc (nth 1 p 0)) (qc (nth 2 p 0))) ->
+                       has3 gtab a b c = true)
+  | _ => True
+  end.
+
+Theorem check_tables_complete c : check_C19 c = true -> tables_ok c.
+Proof.
+  intro H. apply check_tables in H. destruct c; cbn [tables_ok]; try exact I; cbn [tables_complete] in H; cbv zeta in H.
+  - intros ij Hij a b c d Hk. rewrite forallb_forall in H. specialize (H ij (In_indices _ _ Hij)).
+    rewrite forallb_forall in H. exact (H (a, b, c, d) Hk).
+  - intros i Hi. rewrite forallb_forall in H. exact (H i (In_indices _ _ Hi)).
+  - intros p Hp. rewrite forallb_forall in H. specialize (H p Hp).
+    apply andb_true_iff in H. destruct H as [Hf Hg]. rewrite forallb_forall in Hf, Hg. split.
+    + intros a b c Hk. exact (Hf (a, b, c) Hk).
+    + intros a b c Hk. exact (Hg (a, b, c) Hk).
+Qed.
+
+(* a present key is read from a recorded entry (never the default 0 of an absent key) *)
+Lemma has1_lookup1 t a : has1 t a = true ->
+  exists k v, In (k, v) t /\ k == this a /\ lookup1 t a = Q2Qc v.
+Proof.
+  induction t as [|[k v] t IH]; cbn [has1 lookup1]; [discriminate|].
+  destruct (Qeq_bool k (this a)) eqn:E; cbn [orb].
+  - intros _. exists k, v. split; [left; reflexivity|]. split; [apply Qeq_bool_eq; exact E | reflexivity].
+  - intro H. destruct (IH H) as (k' & v' & Hin & Hk & Hl). exists k', v'. split; [right; exact Hin|]. split; assumption.
+Qed.
+
+Lemma has3_lookup3 t a b c : has3 t a b c = true ->
+  exists ka kb kc v, In (ka, kb, kc, v) t /\ ka == this a /\ kb == this b /\ kc == this c /\
+                     lookup3 t a b c = Q2Qc v.
+Proof.
+  induction t as [|[[[ka kb] kc] v] t IH]; cbn [has3 lookup3]; [discriminate|].
+  destruct (Qeq_bool ka (this a) && Qeq_bool kb (this b) && Qeq_bool kc (this c)) eqn:E; cbn [orb].
+  - intros _. apply andb_true_iff in E. destruct E as [E E3]. apply andb_true_iff in E. destruct E as [E1 E2].
+    exists ka, kb, kc, v. split; [left; reflexivity|].
+    repeat split; try (apply Qeq_bool_eq; assumption).
+  - intro H. destruct (IH H) as (ka' & kb' & kc' & v' & Hin & H1 & H2 & H3 & Hl).
+    exists ka', kb', kc', v'. split; [right; exact Hin|]. repeat split; assumption.
+Qed.
+
+Lemma has4_lookup4 t a b c d : has4 t a b c d = true ->
+  exists ka kb kc kd v, In (ka, kb, kc, kd, v) t /\ ka == this a /\ kb == this b /\ kc == this c /\
+                        kd == this d /\ lookup4 t a b c d = Q2Qc v.
+Proof.
+  induction t as [|[[[[ka kb] kc] kd] v] t IH]; cbn [has4 lookup4]; [discriminate|].
+  destruct (Qeq_bool ka (this a) && Qeq_bool kb (this b) && Qeq_bool kc (this c) && Qeq_bool kd (this d)) eqn:E;
+    cbn [orb].
+  - intros _. apply andb_true_iff in E. destruct E as [E E4]. apply andb_true_iff in E. destruct E as [E E3].
+    apply andb_true_iff in E. destruct E as [E1 E2].
+    exists ka, kb, kc, kd, v. split; [left; reflexivity|].
+    repeat split; try (apply Qeq_bool_eq; assumption).
+  - intro H. destruct (IH H) as (ka' & kb' & kc' & kd' & v' & Hin & H1 & H2 & H3 & H4 & Hl).
+    exists ka', kb', kc', kd', v'. split; [right; exact Hin|]. repeat split; assumption.
+Qed.
+
+(* the key lists are the model's own reads: the model values depend on the tabled function through
+   the listed keys only *)
+Theorem tcd_bl_reads_keys (Om Om' : Qc -> Qc -> Qc -> Qc -> Qc) sh h1 h2 (o : idx -> Qc) valid ij :
+  (forall a b c d, In (a, b, c, d) (bl_keys sh o valid ij) -> Om a b c d = Om' a b c d) ->
+  tcd_bl QcOps Om sh h1 h2 o valid ij = tcd_bl QcOps Om' sh h1 h2 o valid ij.
+Proof.
+  unfold tcd_bl, bl_keys. cbv zeta.
+  destruct (valid [nth 0 ij 0%nat; nth 1 ij 0%nat]); [|reflexivity].
+  generalize (vec_at QcOps o [nth 0 ij 0%nat; nth 1 ij 0%nat]) as v0.
+  generalize (nbr QcOps o valid (nth 0 ij 0 + 1 <? nth 0 sh 0)%nat [(nth 0 ij 0 + 1)%nat; nth 1 ij 0%nat]) as v1.
+  generalize (nbr QcOps o valid (nth 1 ij 0 + 1 <? nth 1 sh 0)%nat [nth 0 ij 0%nat; (nth 1 ij 0 + 1)%nat]) as v2.
+  generalize (nbr QcOps o valid (1 <=? nth 0 ij 0)%nat [(nth 0 ij 0 - 1)%nat; nth 1 ij 0%nat]) as v3.
+  generalize (nbr QcOps o valid (1 <=? nth 1 ij 0)%nat [nth 0 ij 0%nat; (nth 1 ij 0 - 1)%nat]) as v4.
+  intros v4 v3 v2 v1 v0 H.
+  assert (T : forall a b, (forall p q r s, In (p, q, r, s) (tri_keys v0 a b) -> Om p q r s = Om' p q r s) ->
+                          tri QcOps Om v0 a b = tri QcOps Om' v0 a b).
+  { intros a b Hab. destruct a as [x|], b as [y|]; cbn [tri]; try reflexivity.
+    unfold bl_angle. rewrite (Hab _ _ _ _ (or_introl eq_refl)). reflexivity. }
+  rewrite (T v1 v2), (T v2 v3), (T v3 v4), (T v4 v1); [reflexivity| | | |];
+    intros p q r s Hin; apply H; repeat (apply in_or_app; (left; exact Hin) || right); try exact Hin.
+Qed.
+
+Theorem angle_reads_key (acosf degf : Qc -> Qc) ax deg (o : idx -> Qc) i :
+  angle_arr QcOps acosf qc_clip degf ax deg o i
+  = (if deg then degf (acosf (angle_key ax o i)) else acosf (angle_key ax o i)).
+Proof. reflexivity. Qed.
+
+Lemma fold_left_ext_in {A B} (f g : A -> B -> A) l : forall acc,
+  (forall a x, In x l -> f a x = g a x) -> fold_left f l acc = fold_left g l acc.
+Proof.
+  induction l as [|x l IH]; intros acc H; [reflexivity|]. cbn [fold_left].
+  rewrite (H acc x (or_introl eq_refl)). apply IH. intros a y Hy. apply H. right. exact Hy.
+Qed.
+
+Theorem N_sum_reads_keys (F_ F' : Qc -> Qc -> Qc -> Qc) x y z dx dy dz :
+  (forall a b c, In (a, b, c) (N_keys x y z dx dy dz) -> F_ a b c = F' a b c) ->
+  N_sum QcOps F_ x y z dx dy dz = N_sum QcOps F' x y z dx dy dz.
+Proof.
+  intro H. unfold N_sum. apply fold_left_ext_in. intros acc i Hi.
+  rewrite (H _ _ _ (in_map _ bits6 i Hi)). reflexivity.
+Qed.
+
+Theorem N6_reads_keys (fN fN' gN gN' : Qc -> Qc -> Qc -> Qc) pi4 dx dy dz x y z :
+  (forall a b c, In (a, b, c) (demag_fkeys dx dy dz x y z) -> fN a b c = fN' a b c) ->
+  (forall a b c, In (a, b, c) (demag_gkeys dx dy dz x y z) -> gN a b c = gN' a b c) ->
+  N6 QcOps fN gN pi4 dx dy dz x y z = N6 QcOps fN' gN' pi4 dx dy dz x y z.
+Proof.
+  intros Hf Hg. unfold N6, N_element, demag_fkeys, demag_gkeys in *.
+  rewrite (N_sum_reads_keys fN fN' x y z dx dy dz) by (intros; apply Hf; apply in_or_app; left; assumption).
+  rewrite (N_sum_reads_keys fN fN' y z x dy dz dx)
+    by (intros; apply Hf; apply in_or_app; right; apply in_or_app; left; assumption).
+  rewrite (N_sum_reads_keys fN fN' z x y dz dx dy)
+    by (intros; apply Hf; apply in_or_app; right; apply in_or_app; right; assumption).
+  rewrite (N_sum_reads_keys gN gN' x y z dx dy dz) by (intros; apply Hg; apply in_or_app; left; assumption).
+  rewrite (N_sum_reads_keys gN gN' x z y dx dz dy)
+    by (intros; apply Hg; apply in_or_app; right; apply in_or_app; left; assumption).
+  rewrite (N_sum_reads_keys gN gN' y z x dy dz dx)
+    by (intros; apply Hg; apply in_or_app; right; apply in_or_app; right; assumption).
+  reflexivity.
 Qed.
